@@ -128,6 +128,20 @@ def handle (j : Json) : Except String Json := do
     pure (Json.mkObj [("ok", match C03.readScript t with
       | some ds => .arr (ds.map tab).toArray
       | none => .null)])
+  | "readscript" =>
+    let t ← strF j "text"
+    let col (c : C03.ColDesc) : Json := Json.mkObj [("name", jstr c.name), ("type", jstr c.type), ("pk", .bool c.pk),
+      ("autoinc", .bool c.autoinc), ("unique", .bool c.unique), ("not_null", .bool c.notNull), ("default", jopt c.default)]
+    let stmt (s : C03.Stmt) : Json := match s with
+      | .enum d => Json.mkObj [("kind", "enum"), ("qname", jstr d.qname), ("items", .arr (d.items.map jstr).toArray)]
+      | .table d => Json.mkObj [("kind", "table"), ("qname", jstr d.qname), ("cols", .arr (d.cols.map col).toArray),
+          ("key", match d.key with | some ns => .arr (ns.map jstr).toArray | none => .null)]
+      | .fk d => Json.mkObj [("kind", "fk"), ("src", jstr d.src), ("constraint", jopt d.constraint),
+          ("src_cols", .arr (d.srcCols.map jstr).toArray), ("dst", jstr d.dst), ("dst_cols", .arr (d.dstCols.map jstr).toArray),
+          ("actions", jstr d.actions)]
+    pure (Json.mkObj [("ok", match C03.readScriptAll t with
+      | some ds => .arr (ds.map stmt).toArray
+      | none => .null)])
   | "readfk" =>
     let t ← strF j "text"
     pure (Json.mkObj [("ok", match C04.readFk t with
